@@ -1,7 +1,7 @@
 """usage: harness/refacmatrix.py [set ...]  — for every stored behaviour-preserving refactoring (refactorings/<set>/<n>/patch.diff) run the quick
 checks of every property anchored in a file the patch touches (scratch worktree via PI2_REPO, harness/seedrun.sh) and print one line per run;
 writes refactorings/RESULTS.json.  Every line should be OK: a VIOLATION here is a false alarm."""
-import json, os, re, subprocess, sys
+import fcntl, json, os, re, subprocess, sys
 V = os.path.dirname(os.path.dirname(os.path.abspath(__file__)))
 MAP = [
     (r'^rust/src/', 'C01 C05 C06 C11'),
@@ -43,6 +43,9 @@ for s in sets:
         for c in checks:
             m = re.search(r'== ' + c + r' rc=(\d+)', out)
             r[c] = 'OK' if (m and m.group(1) == '0') else 'ALARM'
-        res[f'{s}/{n}'] = {'files': files, 'checks': r}
         print(f'{s}/{n}', ' '.join(f'{c}:{v}' for c, v in r.items()), flush=True)
-        json.dump(res, open(rp, 'w'), indent=1)
+        with open(rp + '.lock', 'w') as lk:          # several matrix processes (one per set) may run at once
+            fcntl.flock(lk, fcntl.LOCK_EX)
+            res = json.load(open(rp)) if os.path.exists(rp) else {}
+            res[f'{s}/{n}'] = {'files': files, 'checks': r}
+            json.dump(res, open(rp, 'w'), indent=1)
